@@ -12,9 +12,15 @@ fn replay(file: &str) -> ! {
         "market/payments" => replay_with(&c07::scenario(tier).0, &v),
         "market/lifecycle" => replay_with(&c08::scenario(tier).0, &v),
         "miner-life/c02" => replay_with(&c02::scenario(tier).0, &v),
+        "miner-life/c02-burst" => replay_with(&c02::scenario_burst(tier).0, &v),
+        "miner-life/c02-dispute" => replay_with(&c02::scenario_dispute(tier).0, &v),
         "miner-life/c03" => replay_with(&c03::scenario(tier).0, &v),
+        "miner-life/c03-burst" => replay_with(&c03::scenario_burst(tier).0, &v),
         "miner-life/c04" => replay_with(&c04::scenario(tier).0, &v),
+        "miner-life/c04-burst" => replay_with(&c04::scenario_burst(tier).0, &v),
         "miner-life/c05" => replay_with(&c05::scenario(tier).0, &v),
+        "miner-life/c05-burst" => replay_with(&c05::scenario_burst(tier).0, &v),
+        "miner-life/c05-poor-debt" => replay_with(&c05::scenario_regime(tier, true).0, &v),
         "handover" => replay_with(&c13::scenario(tier).0, &v),
         "miner-life/c15-rich" => replay_with(&c15::scenario_regime(tier, false).0, &v),
         "miner-life/c15-poor" => replay_with(&c15::scenario_regime(tier, true).0, &v),
@@ -23,6 +29,8 @@ fn replay(file: &str) -> ! {
         "multisig" => replay_with(&c12::scenario(tier).0, &v),
         s if s.starts_with("c01") => c01::replay(&v),
         s if s.starts_with("c09") => c09::replay(&v),
+        s if s.starts_with("c10") => c10::replay(&v),
+        s if s.starts_with("c11") => c11::replay(&v),
         s if s.starts_with("c17") => c17::replay(&v),
         s if s.starts_with("c18") => c18::replay(&v),
         s if s.starts_with("c19") => c19::replay(&v),
@@ -62,6 +70,8 @@ fn real_main() {
         "C07" => c07::run(&tier),
         "C08" => c08::run(&tier),
         "C09" => c09::run(&tier),
+        "C10" => c10::run(&tier),
+        "C11" => c11::run(&tier),
         "C12" => c12::run(&tier),
         "C13" => c13::run(&tier),
         "C14" => c14::run(&tier),
